@@ -29,7 +29,7 @@ func runC10(ctx *Ctx) {
 	for _, t := range ctx.types() {
 		t := t
 		ctx.CheckRapid(string(t.Name), n, func(rt *rapid.T) *Case {
-			sub := rapid.SampledFrom([]string{"equal", "equal", "clone", "merge", "merge", "reset", "checkinit", "json", "json", "text", "text"}).Draw(rt, "sub")
+			sub := rapid.SampledFrom([]string{"equal", "equal", "clone", "merge", "merge", "selfmerge", "reset", "checkinit", "json", "json", "text", "text"}).Draw(rt, "sub")
 			unknown := rapid.IntRange(0, 2).Draw(rt, "unknown") == 0 && sub != "json" && sub != "text"
 			canonical := sub == "json" || sub == "text" || rapid.Bool().Draw(rt, "canonical")
 			b, d := ctx.genTypeStream(rt, t, unknown, canonical)
@@ -178,6 +178,15 @@ func checkC10(ctx *Ctx, c *Case) error {
 		wipe(pw.ProtoReflect(), 0)
 		if got := canonI(p); got != refCanon {
 			return fmt.Errorf("destination shares memory with the Merge source: %s", diffStr(got, refCanon))
+		}
+	case "selfmerge":
+		// source and destination are the same message: the reference appends
+		// repeated fields and unknown bytes to themselves
+		proto.Merge(d, d)
+		refCanon := canonD(d.ProtoReflect())
+		proto.Merge(p, p)
+		if got := canonI(p); got != refCanon {
+			return fmt.Errorf("proto.Merge(m, m) differs from the reference: %s", diffStr(got, refCanon))
 		}
 	case "reset":
 		proto.Reset(p)
